@@ -34,7 +34,7 @@ def new_functions(F, known):
     for p, b in F.bodies.items():
         if b.get('crate') not in WS or b['kind'] not in ('Fn', 'AssocFn'):
             continue
-        if p in known or _is_async_ctor(b) or len(b['blocks']) > MAX_BLOCKS:
+        if p in known or len(b['blocks']) > MAX_BLOCKS:
             continue
         out.add(p)
     return out
@@ -129,6 +129,93 @@ def inline_into(F, body, newset, stack=(), depth=0, closure_alias=None):
             nb['blocks'].append({'s': ss, 't': nt})
         # do not advance: the spliced blocks are behind us (index >= bo), the current block is done
         i += 1
+    nb['n_inlined'] = body.get('n_inlined', 0) + 1
+    return nb
+
+
+def _new_coroutines(F, newset):
+    """coroutine bodies of the new async functions: `f::{closure#0}` for f in newset"""
+    out = set()
+    for p, b in F.bodies.items():
+        if b['kind'] == 'Closure' and p.endswith('::{closure#0}') and p[:-len('::{closure#0}')] in newset and len(b['blocks']) <= MAX_BLOCKS \
+                and b.get('locals') and '{async' in b['locals'][1]['ty'] if len(b.get('locals', [])) > 1 else False:
+            out.add(p)
+    return out
+
+
+def inline_awaits(F, body, coros, depth=0):
+    """`helper(args).await` of a new async helper: the coroutine body of the helper is spliced in at the poll, its captured
+    variables bound to the operands of the coroutine value, its `return` turned into Poll::Ready(value); its own awaits stay
+    awaits.  Jump threading afterwards removes the caller's (now impossible) Pending arm."""
+    if depth > MAX_DEPTH or not coros:
+        return body
+    from .core import B as _B
+    polls = [i for i, blk in enumerate(body['blocks']) if blk['t'].get('k') == 'call' and str((blk['t'].get('f') or {}).get('fn', '')).endswith('future::Future::poll')]
+    if not polls:
+        return body
+    W = _B(body)
+    todo = []
+    for i in polls:
+        t = body['blocks'][i]['t']
+        try:
+            o = W.origin(t['args'][0])
+        except Exception:
+            continue
+        if o and o[0] == 'agg' and o[1].get('ak') == 'coroutine' and o[1].get('def') in coros and isinstance(t.get('t'), int):
+            todo.append((i, o[1]))
+    if not todo:
+        return body
+    nb = dict(body)
+    nb['locals'] = list(body['locals'])
+    nb['blocks'] = [{'s': list(blk['s']), 't': dict(blk['t'])} for blk in body['blocks']]
+    for i, agg in todo:
+        cb = inline_awaits(F, F.bodies[agg['def']], coros - {agg['def']}, depth + 1)
+        blk = nb['blocks'][i]
+        t = blk['t']
+        lo = len(nb['locals'])
+        bo = len(nb['blocks'])
+        nb['locals'] = nb['locals'] + [dict(l_) for l_ in cb['locals']]
+        # captured variables: fresh locals bound to the operands the coroutine value was built from
+        ups = {}
+        pre = []
+        for k, op in enumerate(agg.get('ops') or []):
+            ups[k] = len(nb['locals'])
+            nb['locals'] = nb['locals'] + [{'ty': '?', 'n': 'upvar%d' % k}]
+            o2 = copy.deepcopy(op)
+            if o2.get('k') == 'mv':
+                o2['k'] = 'cp'
+            pre.append({'k': '=', 'pl': {'l': ups[k], 'p': None}, 'rv': {'k': 'use', 'op': o2}, 'ln': t.get('ln'), 'inl': agg['def']})
+        if len(t['args']) > 1:
+            pre.append({'k': '=', 'pl': {'l': lo + 2, 'p': None}, 'rv': {'k': 'use', 'op': copy.deepcopy(t['args'][1])}, 'ln': t.get('ln'), 'inl': agg['def']})
+
+        def fix(x):
+            """places rooted in the coroutine state `_1.k...` become the fresh local for captured variable k"""
+            if isinstance(x, dict):
+                if x.get('l') == lo + 1 and isinstance(x.get('p'), list) and x['p'] and isinstance(x['p'][0], dict) and 'f' in x['p'][0] and x['p'][0]['f'] in ups:
+                    rest = [fix(e) for e in x['p'][1:]]
+                    y = {k_: fix(v_) for k_, v_ in x.items() if k_ not in ('l', 'p')}
+                    y['l'] = ups[x['p'][0]['f']]
+                    y['p'] = rest or None
+                    return y
+                return {k_: fix(v_) for k_, v_ in x.items()}
+            if isinstance(x, list):
+                return [fix(v_) for v_ in x]
+            return x
+        ret_to, unw_to, dst = t['t'], t.get('u'), t['dst']
+        blk['s'] = blk['s'] + pre
+        blk['t'] = {'k': 'goto', 't': bo, 'ln': t.get('ln'), 'inl': agg['def']}
+        for cblk in cb['blocks']:
+            ss = [fix(_ren(s_, lo, bo)) for s_ in cblk['s']]
+            ct = cblk['t']
+            if ct['k'] == 'ret':
+                ss.append({'k': '=', 'pl': copy.deepcopy(dst), 'rv': {'k': 'agg', 'ak': 'adt', 'adt': 'core::task::poll::Poll', 'var': 'Ready', 'vi': 0, 'fn': ['0'],
+                                                                     'ops': [{'k': 'mv', 'pl': {'l': lo, 'p': None}}]}, 'ln': t.get('ln'), 'inl': agg['def']})
+                nt = {'k': 'goto', 't': ret_to, 'ln': ct.get('ln'), 'inl': agg['def']}
+            elif ct['k'] == 'resume':
+                nt = {'k': 'goto', 't': unw_to, 'ln': ct.get('ln')} if isinstance(unw_to, int) else dict(ct)
+            else:
+                nt = fix(_ren_term(ct, lo, bo))
+            nb['blocks'].append({'s': ss, 't': nt})
     nb['n_inlined'] = body.get('n_inlined', 0) + 1
     return nb
 
@@ -350,10 +437,16 @@ def normalise(F):
         return []
     alias = {}
     out = {}
+    coros = _new_coroutines(F, newset)
+    # the coroutine bodies of new async helpers first get their own (sync) helpers inlined
+    for c_ in sorted(coros):
+        F.bodies[c_] = inline_into(F, F.bodies[c_], newset, (), 0, alias)
     for p, b in F.bodies.items():
-        if p in newset:
+        if p in newset or p in coros:
             continue
         nb_ = inline_into(F, b, newset, (), 0, alias) if b.get('crate') in WS else b
+        if b.get('crate') in WS and coros and p not in coros:
+            nb_ = inline_awaits(F, nb_, coros)
         if nb_ is not b:
             nb_ = thread_jumps(nb_, F.adts)
         out[p] = nb_
